@@ -181,7 +181,11 @@ def runSection (r : Report) (s : Section) : Report := Id.run do
         let over := if dflt then defaultChecker cpu inst.sh.cpuThreshold else ov = 1
         if dflt then r := r.addCover (if over then (if cpu = inst.sh.cpuThreshold then "default-checker-at-threshold" else "default-checker-over") else
                                       (if cpu + 1 = inst.sh.cpuThreshold then "default-checker-just-below" else "default-checker-calm"))
-        if !implShed && !implOk then
+        if l.obs.head? = some "nilpromise" then
+          -- monitor (clause 3): an admitted request is in flight until its promise is resolved — there must be a promise
+          r := r.mismatch s.idx l.idx "ok|overloaded" (joinSp l.obs)
+          r := r.violation s.idx l.idx "Allow admitted the request (no error) but returned no promise: the request can never be resolved (the call sites call Pass / Fail on it unconditionally)"
+        else if !implShed && !implOk then
           r := r.mismatch s.idx l.idx "ok|overloaded" (joinSp l.obs)
         else if inst.nop then
           -- nopShedder: always admits, its promise does nothing
